@@ -121,8 +121,8 @@ def walk (ix : Index) : Path → Path → Option Path
 def lookup (ix : Index) (fspath : Str) : Option Path :=
   if fspath.isEmpty then some [] else walk ix [] (splitOn 47 fspath)
 
-/-- destination path of a pending link as the resolution loop computes it; `none` = the
-    Python raises (`dest[0]` on an empty target) -/
+/-- destination path of a pending link as the resolution loop computes it; `none` = an empty
+    target (a link to nothing) -/
 def destOf (p : Pending) : Option Str :=
   match p.dest with
   | [] => none
@@ -136,7 +136,7 @@ def resolvePass (ix : Index) : List Pending → Option (Index × List Pending)
   | [] => some (ix, [])
   | p :: ps =>
     match destOf p with
-    | none => none
+    | none => resolvePass ix ps          -- a link to nothing dangles: it is dropped
     | some d =>
       match lookup ix d with
       | some target =>
